@@ -3,6 +3,7 @@ package main
 import (
 	"fmt"
 	"math/rand"
+	"regexp"
 	"strings"
 
 	"verifharness/internal/dialect"
@@ -171,6 +172,12 @@ func c11Cases(c runCfg) ([]*scratch.Pkg, []string, map[string]interface{}) {
 		if sb.Kind == "keyheader" {
 			sb.Param = []string{"X-Key-B", "x-key-b", "X-KEY-B"}[i%3]
 		}
+		if i%7 == 3 && ((sa.Kind == "keyheader" && sb.Kind == "keyquery") || (sa.Kind == "keyquery" && sb.Kind == "keyheader")) {
+			// one key name read from the header by one scheme and from the query by the other (the two authenticators would be
+			// given one Go name: the generator refuses the document; were it accepted, each operation must still be guarded by
+			// the scheme IT lists)
+			sa.Param, sb.Param = "api_key", []string{"api_key", "api-key"}[i%2]
+		}
 		sp := &dialect.Spec{Schemes: []dialect.Scheme{sa, sb}}
 		sp.Global, sp.HasGlobal, _ = globalSecurity(cf.g)
 		s1, n1 := opSecurity(cf.o1)
@@ -262,6 +269,8 @@ func c11Cases(c runCfg) ([]*scratch.Pkg, []string, map[string]interface{}) {
 // ---------------------------------------------------------------------------
 // C16: middleware stacks over routed / unrouted / spec-file / preflight requests
 
+var c16Fill = regexp.MustCompile(`\{[^}]*\}`)
+
 func c16Cases(c runCfg) ([]*scratch.Pkg, []string, map[string]interface{}) {
 	rng := rand.New(rand.NewSource(c.Seed))
 	nsets := 16
@@ -283,6 +292,18 @@ func c16Cases(c runCfg) ([]*scratch.Pkg, []string, map[string]interface{}) {
 			seen[equivKey(t)] = true
 			ts.Templates = append(ts.Templates, t)
 			ts.Methods[t] = [][]string{{"GET"}, {"GET", "POST"}, {"POST", "OPTIONS"}}[rng.Intn(3)]
+		}
+		// the name of a variable is not part of a template's identity: in every other document the templates name the
+		// variable at one position differently (/a/{p2}/b next to /a/{w2}/c); the template a middleware is told is the
+		// operation's own
+		if i%2 == 1 {
+			nm := map[string][]string{}
+			for k, t := range ts.Templates {
+				nt := strings.ReplaceAll(t, "{p", "{"+[]string{"p", "w", "z"}[k%3])
+				nm[nt] = ts.Methods[t]
+				ts.Templates[k] = nt
+			}
+			ts.Methods = nm
 		}
 		bf := baseForms[i%len(baseForms)]
 		sp := specFromTemplates(ts)
@@ -338,7 +359,7 @@ func c16Cases(c runCfg) ([]*scratch.Pkg, []string, map[string]interface{}) {
 						nreq++
 					}
 					for _, t := range ts.Templates {
-						lines = append(lines, RLine(rc.Pkg, cfg, m, nb+strings.NewReplacer("{p1}", "x", "{p2}", "y", "{p3}", "z").Replace(t), nil, ""))
+						lines = append(lines, RLine(rc.Pkg, cfg, m, nb+c16Fill.ReplaceAllString(t, "x"), nil, ""))
 						nreq++
 					}
 				}
